@@ -52,6 +52,7 @@ TOL_SDP = 5e-4
 # prover side -- `prove(tier, seed)` (E2: every toqito.rand function has rng: own(seed), modifies nothing) is added HERE
 # by the main agent.  Do not define it in the executor section below.
 # =============================================================================================
+from props.C19_prove import prove  # noqa: E402,F401
 
 
 # =============================================================================================
@@ -84,7 +85,7 @@ def _identical(a, b):
     fa, fb = _flat(a), _flat(b)
     if type(a) is not type(b) or len(fa) != len(fb):
         return False
-    return all(x.shape == y.shape and x.dtype == y.dtype and np.array_equal(x, y) for x, y in zip(fa, fb))
+    return all(x.shape == y.shape and x.dtype == y.dtype and np.array_equal(x, y, equal_nan=True) for x, y in zip(fa, fb))  # non-finite output is the kind clauses' business
 
 
 def _maxdiff(a, b):
